@@ -32,6 +32,12 @@ def main():
         print(text)
         print("REPLAY: property holds on this input" if ok else f"REPLAY: VIOLATION property={a.prop} reproduced")
         return 0 if ok else 1
+    from .sym import selftest
+    bad = selftest.run()
+    if bad:
+        for b in bad:
+            print("CHECKER-ERROR engine self-check:", b)
+        return 3
     try:
         res = mod.run(a.tier, seed)
     except Exception:  # noqa: BLE001
